@@ -195,6 +195,7 @@ func driveC06(seed int64, tier, out, replay string) {
 		}
 		oo := opOptionsFor("inD01", r.World)
 		oo.ForceMutation = true
+		oo.VarNamedID = true
 		var op gen.GenOp
 		if c.Op != nil {
 			op = *c.Op
